@@ -477,6 +477,7 @@ func CheckMain(prop, tier string) int {
 	bySig := map[string]*RunReport{}
 	var sigOrder []string
 	inputs := 0
+	subEvals := 0
 	var samples []interface{}
 	simMs := int64(0)
 	for _, r := range sr.reports {
@@ -498,9 +499,17 @@ func CheckMain(prop, tier string) int {
 			agg.Blocks += r.Stats.Blocks
 			simMs += r.Stats.SimMillis
 		}
-		fps[r.Fingerprint] = true
-		if r.NonTrivial {
-			nontrivFps[r.Fingerprint] = true
+		if r.SubEvals > 0 {
+			subEvals += r.SubEvals
+			for _, f := range r.SubFP {
+				fps[f] = true
+				nontrivFps[f] = true
+			}
+		} else {
+			fps[r.Fingerprint] = true
+			if r.NonTrivial {
+				nontrivFps[r.Fingerprint] = true
+			}
 		}
 		for _, f := range r.Foreign {
 			foreign[clipS(f, 100)]++
@@ -635,6 +644,10 @@ func CheckMain(prop, tier string) int {
 	}
 	if inputs > 0 {
 		cov["inputs"] = inputs
+	}
+	if subEvals > 0 {
+		cov["evaluations"] = subEvals
+		cov["batches"] = len(sr.reports) - len(harnessErrs)
 	}
 	if len(samples) == 0 {
 		cov["samples"] = []interface{}{"no clean sample trace captured in this run"}
